@@ -421,3 +421,156 @@ func (s *substituter) stmt(st ast.Stmt) (ast.Stmt, bool) {
 	}
 	return st, false
 }
+
+// memReads: the storage an argument expression reads beyond plain locals: struct fields (by field object), package-level
+// variables, and "other" for element / pointer reads that are not rooted in a field.
+func memReads(info *types.Info, e ast.Expr) (objs map[types.Object]bool, other bool) {
+	objs = map[types.Object]bool{}
+	ast.Inspect(e, func(n ast.Node) bool {
+		switch x := n.(type) {
+		case *ast.SelectorExpr:
+			if sel, ok := info.Selections[x]; ok && sel.Kind() == types.FieldVal {
+				objs[sel.Obj()] = true
+			} else if v, ok := info.Uses[x.Sel].(*types.Var); ok && !v.IsField() {
+				objs[v] = true // qualified package-level variable
+			}
+		case *ast.Ident:
+			if v, ok := info.Uses[x].(*types.Var); ok && !v.IsField() && v.Pkg() != nil && v.Parent() == v.Pkg().Scope() {
+				objs[v] = true
+			}
+		case *ast.IndexExpr, *ast.StarExpr, *ast.SliceExpr:
+			var base ast.Expr
+			switch y := x.(type) {
+			case *ast.IndexExpr:
+				base = y.X
+			case *ast.StarExpr:
+				base = y.X
+			case *ast.SliceExpr:
+				base = y.X
+			}
+			if fieldRoot(info, base) == nil {
+				other = true
+			}
+		}
+		return true
+	})
+	return objs, other
+}
+
+// fieldRoot: the field object an lvalue / element expression is rooted in (l.data[i] -> data), nil if none.
+func fieldRoot(info *types.Info, e ast.Expr) types.Object {
+	for {
+		switch x := ast.Unparen(e).(type) {
+		case *ast.IndexExpr:
+			e = x.X
+		case *ast.SliceExpr:
+			e = x.X
+		case *ast.StarExpr:
+			e = x.X
+		case *ast.UnaryExpr:
+			if x.Op != token.AND {
+				return nil
+			}
+			e = x.X
+		case *ast.CallExpr:
+			// conversions: *(*uint32)(unsafe.Pointer(&l.data[i])) is rooted in l.data
+			if tv, ok := info.Types[x.Fun]; ok && tv.IsType() && len(x.Args) == 1 {
+				e = x.Args[0]
+				continue
+			}
+			return nil
+		case *ast.SelectorExpr:
+			if sel, ok := info.Selections[x]; ok && sel.Kind() == types.FieldVal {
+				return sel.Obj()
+			}
+			if v, ok := info.Uses[x.Sel].(*types.Var); ok {
+				return v
+			}
+			return nil
+		case *ast.Ident:
+			if v, ok := info.Uses[x].(*types.Var); ok && !v.IsField() && v.Pkg() != nil && v.Parent() == v.Pkg().Scope() {
+				return v
+			}
+			return nil
+		default:
+			return nil
+		}
+	}
+}
+
+// memWrites: the storage a helper body may write: fields / package variables assigned (also element-wise and through copy),
+// and "other" when it stores through a plain pointer / slice variable or calls anything that is not a builtin or a conversion.
+func memWrites(info *types.Info, body ast.Node) (objs map[types.Object]bool, other bool) {
+	objs = map[types.Object]bool{}
+	lv := func(e ast.Expr) {
+		if _, isId := ast.Unparen(e).(*ast.Ident); isId {
+			if o := fieldRoot(info, e); o != nil {
+				objs[o] = true
+			}
+			return
+		}
+		if o := fieldRoot(info, e); o != nil {
+			objs[o] = true
+		} else {
+			other = true
+		}
+	}
+	ast.Inspect(body, func(n ast.Node) bool {
+		switch s := n.(type) {
+		case *ast.AssignStmt:
+			for _, l := range s.Lhs {
+				lv(l)
+			}
+		case *ast.IncDecStmt:
+			lv(s.X)
+		case *ast.RangeStmt:
+			if s.Tok == token.ASSIGN {
+				for _, e := range []ast.Expr{s.Key, s.Value} {
+					if e != nil {
+						lv(e)
+					}
+				}
+			}
+		case *ast.CallExpr:
+			if tv, ok := info.Types[s.Fun]; ok && tv.IsType() {
+				return true
+			}
+			if id, ok := ast.Unparen(s.Fun).(*ast.Ident); ok {
+				if _, isB := info.Uses[id].(*types.Builtin); isB {
+					if id.Name == "copy" && len(s.Args) > 0 {
+						lv(s.Args[0])
+					}
+					if id.Name == "clear" && len(s.Args) > 0 {
+						lv(s.Args[0])
+					}
+					return true
+				}
+			}
+			other = true
+		}
+		return true
+	})
+	return objs, other
+}
+
+// stableDuring reports whether argument arg is certain to keep its value while body runs: it reads no storage the body
+// may write. Plain locals of the caller cannot be written by the helper at all.
+func stableDuring(ci *types.Info, arg ast.Expr, hi *types.Info, body ast.Node) bool {
+	robjs, rother := memReads(ci, arg)
+	if len(robjs) == 0 && !rother {
+		return true
+	}
+	wobjs, wother := memWrites(hi, body)
+	if wother {
+		return false
+	}
+	if rother && len(wobjs) > 0 {
+		return false
+	}
+	for o := range robjs {
+		if wobjs[o] {
+			return false
+		}
+	}
+	return true
+}
